@@ -153,7 +153,14 @@ def run(ctx, spec):
             v, sv, secs, out = I.solve(I.smt(enc, [], pre + rng + [neg], [s]), solvers=("z3-new", "z3", "cvc5"), cap=cap)
             queries.append({"name": "next(s) = 16807*s mod (2^31-1) and in [1, 2^31-2] for all s in [%d, %d]" % (lo, hi), "verdict": v, "solver": sv, "secs": round(secs, 2)})
             if v == "sat":
-                violations.append({"name": "Park-Miller step", "detail": out[:300], "model": out})
+                mm = re.search(r"\(\|state![0-9]+\|\s+(\d+)\)", out)
+                st = int(mm.group(1)) if mm else None
+                nat = lib.w_next(st) if st is not None else None
+                ref = (16807 * st) % M31 if st is not None else None
+                if st is not None and (nat != ref or not (1 <= nat <= M31 - 1)):
+                    violations.append({"name": "Park-Miller step", "detail": "state %d: natively compiled next_long_rand returns %d, 16807*s mod (2^31-1) = %d" % (st, nat, ref), "model": {"state": st}})
+                else:
+                    inconclusive.append("Park-Miller step: solver model %s not reproduced by the native function" % st)
             elif v != "unsat":
                 inconclusive.append("Park-Miller step slice %d: no verdict" % k)
         # ---- (2) constructor: seeds 0 and 2i + 123j
